@@ -381,11 +381,12 @@ def progressB (cfg : Sites) (p : Bytes) : Bool :=
 
 
 /-- keys that survive the trip through `strconv`/`encoding/json` as modelled by `JPath.toRaw`:
-field ids fit int32 (and are non-negative while `head[f]` is unguarded), indices fit int64, no string key is `"*"` -/
+field ids fit int32 (and are non-negative while `head[f]` is unguarded), indices fit int64, no string key is `"*"`
+and string keys are valid UTF-8 (JSON cannot carry other bytes) -/
 def jsonSafeStep (cfg : Sites) : PStep → Bool
   | .field id => fitsInt32 id && (!cfg.headNeg || decide (0 ≤ id))
   | .idx i => fitsInt64 i
-  | .key s => s != [42]
+  | .key s => s != [42] && validUtf8 s
   | _ => true
 
 def JsonSafe (cfg : Sites) (P : List APath) : Bool := P.all fun p => p.all (jsonSafeStep cfg)
